@@ -209,7 +209,25 @@ func specials(d DT) []interface{} {
 // pool so that existing case files keep their meaning).
 var extraStrings = []string{"#x", "#", "a#b", "x\ty", ";", "'", "\\", "a\rb", "0", "-0", "NaN", "1e5", " ", "\u00a0", "é,è"}
 
+// moderate: magnitudes between the small integers and the extremes of the specials pool (codes 4000+i):
+// where saturation fast paths, range reductions and overflow thresholds of the float routines sit.
+var moderate = []float64{10.5, -10.5, 20, -20, 50, -50, 80, -80, 100, -100, 1000.25, -1000.25, 12345, -12345, 709.5, -709.5}
+
 func decode(d DT, code int64) interface{} {
+	if code >= 4000 {
+		m := moderate[int(code-4000)%len(moderate)]
+		switch d.Name {
+		case "float32":
+			return float32(m)
+		case "float64":
+			return m
+		case "complex64":
+			return complex(float32(m), 0)
+		case "complex128":
+			return complex(m, 0)
+		}
+		return conv(d, (code-4000)%8)
+	}
 	if code >= 3000 {
 		if d.Name == "string" {
 			return extraStrings[int(code-3000)%len(extraStrings)]
